@@ -46,6 +46,7 @@ func init() {
 			{ID: "C17-R21", Title: "the loader limits what the compiler limits", Floor: 1, Run: theLoaderLimitsWhatTheCompilerLimits},
 			{ID: "C17-R22", Title: "the writers of the stored form agree", Floor: 1, Run: theWritersOfTheStoredFormAgree},
 			{ID: "C17-R23", Title: "floats are written in their own width", Floor: 1, Run: floatsAreWrittenInTheirOwnWidth},
+			{ID: "C17-R24", Title: "the loader takes symbols as they were stored", Floor: 5, Run: theLoaderTakesSymbolsAsTheyWereStored},
 		},
 	})
 }
